@@ -1,0 +1,200 @@
+// Copyright 2024 Jigsaw Operations LLC
+//
+// Licensed under the Apache License, Version 2.0 (the "License");
+// you may not use this file except in compliance with the License.
+// You may obtain a copy of the License at
+//
+//     https://www.apache.org/licenses/LICENSE-2.0
+//
+// Unless required by applicable law or agreed to in writing, software
+// distributed under the License is distributed on an "AS IS" BASIS,
+// WITHOUT WARRANTIES OR CONDITIONS OF ANY KIND, either express or implied.
+// See the License for the specific language governing permissions and
+// limitations under the License.
+
+//go:build verif
+
+package main
+
+import (
+	"encoding/json"
+	"fmt"
+	"net"
+	"os"
+	"path/filepath"
+	"runtime"
+	"sync"
+	"testing"
+	"time"
+
+	"github.com/Jigsaw-Code/outline-ss-server/service"
+	"github.com/Jigsaw-Code/outline-ss-server/service/metrics"
+)
+
+// Scenario driver for the verification harness (/verif/harness): package main cannot be
+// imported, so the harness builds this test binary and feeds it a JSON script
+// (VERIF_SCRIPT) of steps; observations are written to VERIF_OUT.
+
+type verifStep struct {
+	Op     string `json:"op"` // start reload stop wait goroutines
+	Config string `json:"config,omitempty"`
+	Replay int    `json:"replay_history,omitempty"`
+	Ms     int    `json:"ms,omitempty"`
+	Raw    bool   `json:"raw,omitempty"` // write Config to the file verbatim even when empty
+}
+
+type verifObs struct {
+	Op         string `json:"op"`
+	Err        string `json:"err,omitempty"`
+	Goroutines int    `json:"goroutines,omitempty"`
+}
+
+// verifMetrics records what the services report; the harness reads it over the control socket.
+type verifMetrics struct {
+	mu   sync.Mutex
+	evs  []verifEvent
+	next int
+}
+type verifEvent struct {
+	Kind   string `json:"kind"` // tcpopen tcpauth tcpclosed udpadd udpremove
+	Conn   int    `json:"conn"`
+	Local  string `json:"local,omitempty"`
+	Client string `json:"client,omitempty"`
+	Key    string `json:"key"`
+	Status string `json:"status,omitempty"`
+}
+
+type verifTCPConn struct {
+	m  *verifMetrics
+	id int
+}
+
+func (m *verifMetrics) add(e verifEvent) {
+	m.mu.Lock()
+	defer m.mu.Unlock()
+	m.evs = append(m.evs, e)
+}
+func (m *verifMetrics) AddOpenTCPConnection(conn net.Conn) service.TCPConnMetrics {
+	m.mu.Lock()
+	id := m.next
+	m.next++
+	m.mu.Unlock()
+	m.add(verifEvent{Kind: "tcpopen", Conn: id, Local: conn.LocalAddr().String(), Client: conn.RemoteAddr().String()})
+	return &verifTCPConn{m, id}
+}
+func (c *verifTCPConn) AddAuthenticated(accessKey string) {
+	c.m.add(verifEvent{Kind: "tcpauth", Conn: c.id, Key: accessKey})
+}
+func (c *verifTCPConn) AddClosed(status string, data metrics.ProxyMetrics, duration time.Duration) {
+	c.m.add(verifEvent{Kind: "tcpclosed", Conn: c.id, Status: status})
+}
+func (c *verifTCPConn) AddProbe(status, drainResult string, clientProxyBytes int64) {}
+
+type verifUDPConn struct {
+	m  *verifMetrics
+	id int
+}
+
+func (m *verifMetrics) AddUDPNatEntry(clientAddr net.Addr, accessKey string) service.UDPConnMetrics {
+	m.mu.Lock()
+	id := m.next
+	m.next++
+	m.mu.Unlock()
+	m.add(verifEvent{Kind: "udpadd", Conn: id, Client: clientAddr.String(), Key: accessKey})
+	return &verifUDPConn{m, id}
+}
+func (c *verifUDPConn) AddPacketFromClient(status string, a, b int64) {}
+func (c *verifUDPConn) AddPacketFromTarget(status string, a, b int64) {}
+func (c *verifUDPConn) RemoveNatEntry()                               { c.m.add(verifEvent{Kind: "udpremove", Conn: c.id}) }
+func (m *verifMetrics) AddCipherSearch(proto string, accessKeyFound bool, timeToCipher time.Duration) {
+}
+
+// TestVerifDriver executes the steps, pausing after each one until the harness says "go" on the
+// control socket, so that the harness can probe the running server between steps.
+func TestVerifDriver(t *testing.T) {
+	script := os.Getenv("VERIF_SCRIPT")
+	if script == "" {
+		t.Skip("no VERIF_SCRIPT")
+	}
+	data, err := os.ReadFile(script)
+	if err != nil {
+		t.Fatal(err)
+	}
+	var steps []verifStep
+	if err := json.Unmarshal(data, &steps); err != nil {
+		t.Fatal(err)
+	}
+	ctl, err := net.Listen("tcp", "127.0.0.1:0")
+	if err != nil {
+		t.Fatal(err)
+	}
+	dir := filepath.Dir(script)
+	os.WriteFile(filepath.Join(dir, "control.addr"), []byte(ctl.Addr().String()), 0o644)
+	conn, err := ctl.Accept()
+	if err != nil {
+		t.Fatal(err)
+	}
+	enc, dec := json.NewEncoder(conn), json.NewDecoder(conn)
+	cfgPath := filepath.Join(dir, "config.yaml")
+	vm := &verifMetrics{}
+	var srv *OutlineServer
+	evFrom := 0
+	for _, st := range steps {
+		ob := verifObs{Op: st.Op}
+		switch st.Op {
+		case "start":
+			os.WriteFile(cfgPath, []byte(st.Config), 0o644)
+			s, err := RunOutlineServer(cfgPath, 2*time.Second, newPrometheusServerMetrics(), vm, st.Replay)
+			if err != nil {
+				ob.Err = err.Error()
+			} else {
+				srv = s
+			}
+		case "reload":
+			if st.Config == "<unreadable>" {
+				os.Remove(cfgPath)
+			} else {
+				os.WriteFile(cfgPath, []byte(st.Config), 0o644)
+			}
+			if srv == nil {
+				ob.Err = "no server"
+			} else if err := srv.loadConfig(cfgPath); err != nil {
+				ob.Err = err.Error()
+			}
+		case "stop":
+			if srv != nil {
+				if err := srv.Stop(); err != nil {
+					ob.Err = err.Error()
+				}
+			}
+		case "wait":
+			time.Sleep(time.Duration(st.Ms) * time.Millisecond)
+		}
+		time.Sleep(20 * time.Millisecond)
+		ob.Goroutines = runtime.NumGoroutine()
+		enc.Encode(ob)
+		// serve the harness' requests until it says "go"
+		for {
+			var req struct {
+				Cmd string `json:"cmd"`
+			}
+			if err := dec.Decode(&req); err != nil {
+				return
+			}
+			if req.Cmd == "go" {
+				break
+			}
+			if req.Cmd == "events" {
+				vm.mu.Lock()
+				evs := append([]verifEvent{}, vm.evs[evFrom:]...)
+				evFrom = len(vm.evs)
+				vm.mu.Unlock()
+				enc.Encode(evs)
+			}
+			if req.Cmd == "goroutines" {
+				enc.Encode(runtime.NumGoroutine())
+			}
+		}
+	}
+	fmt.Fprintln(os.Stderr, "driver done")
+}
